@@ -129,6 +129,29 @@ func shapeSrc(c Call) string {
 	return "def call(f, s, d): return f(" + c.argText() + ")\n"
 }
 
+// shape2Src: the same call made twice by one caller, with other work on the
+// caller's operand stack in between; both results are kept and returned, so
+// that a binding that hands the callee storage it shares with the caller
+// (the *args tuple, the **kwargs dict) shows when the first result is looked
+// at after the second call.
+func shape2Src(c Call) string {
+	a := c.argText()
+	return "def call2(f, s, d):\n    r1 = f(" + a + ")\n    w = [7, 8, 9, (10, 11)]\n    r2 = f(" + a + ")\n    w2 = {12: 13, 14: [15, 16, 17]}\n    return (r1, r2)\n"
+}
+
+func (e *env) shape2(c Call) starlark.Value {
+	k := "2|" + c.shapeKey()
+	if v, ok := e.shapes[k]; ok {
+		return v
+	}
+	g, err := starlark.ExecFileOptions(&syntax.FileOptions{}, e.th, "shape2.star", shape2Src(c), nil)
+	if err != nil {
+		fw.Fatal("c08: call shape %q does not compile: %v", shape2Src(c), err)
+	}
+	e.shapes[k] = g["call2"]
+	return g["call2"]
+}
+
 // shape returns the compiled call shape for c (compiling it on first use and
 // defining it in the Python process).
 func (e *env) shape(c Call) (starlark.Value, int) {
@@ -189,7 +212,14 @@ func mkDict(c Call) starlark.Value {
 	return d
 }
 
-func canonVal(v starlark.Value) string {
+func canonVal(v starlark.Value) string { return canonValDepth(v, 0) }
+
+// (a value that has come to contain itself is cut off, not followed for ever)
+func canonValDepth(v starlark.Value, depth int) string {
+	if depth > 12 {
+		return "<deeper than any value a binding can produce>"
+	}
+	canonVal := func(x starlark.Value) string { return canonValDepth(x, depth+1) }
 	switch v := v.(type) {
 	case starlark.Tuple:
 		var es []string
@@ -212,6 +242,12 @@ func canonVal(v starlark.Value) string {
 		return v.String()
 	case nil:
 		return "<nil>"
+	case *starlark.List:
+		var es []string
+		for i := 0; i < v.Len(); i++ {
+			es = append(es, canonVal(v.Index(i)))
+		}
+		return "?[" + strings.Join(es, ", ") + "]"
 	}
 	return "?" + v.String()
 }
@@ -280,6 +316,20 @@ func (e *env) checkBind(s Sig, f, g starlark.Value, c Call, pyDef, pyLam string,
 		}
 		if got != want {
 			report("bind-src", fnText, "compiled call", got, fmt.Sprintf("specification says %s; err=%q", want, etext))
+		}
+		// the same call twice from one caller, both results kept
+		if want != failed {
+			_, ret2, etext2 := safeCall(e.th, e.shape2(c), starlark.Tuple{fn, mkSeq(c), mkDict(c)}, nil)
+			if st != nil {
+				st.Evals++
+			}
+			if t2, ok := ret2.(starlark.Tuple); !ok || len(t2) != 2 || canonVal(t2[0]) != want || canonVal(t2[1]) != want {
+				desc := etext2
+				if ok && len(t2) == 2 {
+					desc = canonVal(t2[0]) + " and " + canonVal(t2[1])
+				}
+				report("bind-retained", fnText, "the call made twice by one caller, results looked at afterwards", desc, fmt.Sprintf("specification says %s both times", want))
+			}
 		}
 		if py != "" && py != "S" && got != py {
 			report("bind-py", fnText, "compiled call", got, fmt.Sprintf("CPython gives %s for the same text (reference binder: %s)", py, want))
